@@ -355,7 +355,9 @@ var legalNext = map[string]map[string]bool{
 	// Terminating -> Error: a stop request landed between a failed start and
 	// the Error write of the same launch attempt
 	types.ProcessStateTerminating: {types.ProcessStateCompleted: true, types.ProcessStateRestarting: true, types.ProcessStateTerminating: true,
-		types.ProcessStateSkipped: true, types.ProcessStateError: true},
+		types.ProcessStateSkipped: true, types.ProcessStateError: true,
+		// a daemon whose launcher returns while it is being stopped (Completed follows at once)
+		types.ProcessStateLaunched: true},
 }
 
 // oracleState checks every status write of every process.
@@ -471,6 +473,12 @@ func oracleState(lr *LifeRun, ix *lifeIndex, r *fw.Result) {
 						if !pending && lastInst < ix.runRet {
 							r.Add("C09", "transient-at-end:"+fs.Status, "%s remains in transient status %s after Run() returned with no command alive", name, fs.Status)
 						}
+					}
+				}
+				// once ended, the reported exit code does not change any more
+				if isTerminal(fs.Status) && len(pl.States) > 0 {
+					if t := pl.States[len(pl.States)-1]; isTerminal(t.Str) && t.Str == fs.Status && t.Code != fs.ExitCode {
+						r.Add("C09", "exit-code-changed-after-end", "%s ended as %s with exit code %d (seq %d) and is reported with exit code %d after Run() returned", name, t.Str, t.Code, t.Seq, fs.ExitCode)
 					}
 				}
 				// the exit code that stays reported is the one of the last command
